@@ -103,10 +103,20 @@ where
 
     let mut event_queue = fill_queue(subject, clipping, &mut sbbox, &mut cbbox, operation);
 
+    #[cfg(feature = "verif-hooks")]
+    let true_boxes = (sbbox, cbbox);
+    #[cfg(feature = "verif-hooks")]
+    let (sbbox, cbbox) = crate::verif::boxes_for_shortcut(true_boxes.0, true_boxes.1);
+
     if sbbox.min.x > cbbox.max.x || cbbox.min.x > sbbox.max.x || sbbox.min.y > cbbox.max.y || cbbox.min.y > sbbox.max.y
     {
+        #[cfg(feature = "verif-hooks")]
+        crate::verif::probe(crate::verif::Site::Shortcut);
         return trivial_result(subject, clipping, operation);
     }
+
+    #[cfg(feature = "verif-hooks")]
+    let (sbbox, cbbox) = crate::verif::boxes_for_sweep(true_boxes.0, true_boxes.1);
 
     let sorted_events = subdivide(&mut event_queue, &sbbox, &cbbox, operation);
 
